@@ -157,4 +157,49 @@ def passThrough : List Outcome → Run
 def runRegistered (wrapped untilSuccess : Bool) (p : Params) (outs : List Outcome) : Run :=
   if wrapped then retry { p with ctorUntilSuccess := untilSuccess } outs else passThrough outs
 
+/-! ### consecutive invocations of one task
+
+The driver obtains the params dict from the task's parameter source before every invocation; the default
+`ParamSource.params()` hands out *the same dict object* every time (and to every client of the worker), so
+whatever a runner writes into it is seen by the next invocation.  `Retry.__call__` reads its configuration
+from the dict once, before the loop; the delegate receives the very same dict on every attempt.
+The retry-relevant content of the dict is `Params`; what an attempt does to it is `effect`. -/
+
+structure Attempt where
+  out : Outcome
+  effect : Params → Params      -- in-place update of the dict by the delegate during this attempt
+
+/-- one invocation against the dict `store`: the run, and the dict afterwards (effects of the attempts that were made) -/
+def invoke (wrapped untilSuccess : Bool) (store : Params) (atts : List Attempt) : Run × Params :=
+  let r := runRegistered wrapped untilSuccess store (atts.map (·.out))
+  (r, (atts.take r.calls).foldl (fun s a => a.effect s) store)
+
+/-- the invocations of a task one after the other; `shared` = the parameter source hands out the same dict
+    (default `ParamSource`), otherwise a fresh copy of the task's parameters `p0` each time -/
+def runSeq (wrapped untilSuccess shared : Bool) (p0 : Params) : Params → List (List Attempt) → List Run
+  | _, [] => []
+  | store, inv :: rest =>
+    (invoke wrapped untilSuccess store inv).1 ::
+      runSeq wrapped untilSuccess shared p0 (if shared then (invoke wrapped untilSuccess store inv).2 else p0) rest
+
+def runTask (wrapped untilSuccess shared : Bool) (p0 : Params) (invs : List (List Attempt)) : List Run :=
+  runSeq wrapped untilSuccess shared p0 p0 invs
+
+/-- an observed in-place update of the retry-relevant keys: `none` = key untouched, `some none` = key deleted,
+    `some (some v)` = key set to `v` (used by the line-protocol driver to replay observed effects) -/
+structure Update where
+  untilSuccess : Option (Option Bool)
+  retries : Option (Option Int)
+  retryOnError : Option (Option Bool)
+  wait : Option (Option Rat)
+  retryOnTimeout : Option (Option Bool)
+
+def Update.apply (u : Update) (p : Params) : Params :=
+  { p with
+    untilSuccess := u.untilSuccess.getD p.untilSuccess,
+    retries := u.retries.getD p.retries,
+    retryOnError := u.retryOnError.getD p.retryOnError,
+    wait := u.wait.getD p.wait,
+    retryOnTimeout := u.retryOnTimeout.getD p.retryOnTimeout }
+
 end Retry
